@@ -329,6 +329,8 @@ I5_SCRIPTS = {
     "float-of-a-string-keeps-its-fraction": "raw = '2.75'\nv = float(raw)\nmon.write(v)\nn = int('42')\nmon.write(n)\ndef conv(s):\n    return float(s) * 2\nmon.write(conv('1.25'))\nw = float('3')\nmon.write(w)\nparts = ['0.5', '7']\nmon.write(float(parts[0]) + int(parts[1]))\n",
     "helper-unpacks-floats-into-names-that-are-module-ints": "lo = 7\nhi = 9\ndef span(v):\n    lo, hi = v / 2, v * 1.5\n    return hi - lo\nmon.write(span(3))\nmon.write(lo)\nmon.write(hi)\ndef pair(v):\n    [lo, hi] = [v + 0.25, v + 0.75]\n    return lo + hi\nmon.write(pair(1))\nmon.write(lo + hi)\n",
     "helper-binds-a-module-name-only-in-nested-blocks": "level = 3\ndef pick(v):\n    if v > 1:\n        level = v / 4\n    else:\n        level = 0.5\n    return level * 2\nmon.write(pick(3))\nmon.write(level)\ndef acc(n):\n    for i in range(n):\n        level = i + 0.5\n    return level\nmon.write(acc(2))\nmon.write(level)\n",
+    "helper-local-hoisted-with-the-type-of-a-module-name": "c = 1\nif c > 0:\n    y = 1\nmon.write(y)\ndef h(n):\n    k = 0\n    while k < n:\n        y = 0.5\n        k = k + 1\n    return y\nmon.write(h(2))\n",
+    "helper-calls-a-helper-defined-later": "def outer(v):\n    return inner(v) + 1\ndef inner(v):\n    return v * 0.5\nmon.write(outer(3))\n",
     "dc-motor-queries-stored-in-variables": "from Reduino.Actuators import DCMotor\nm = DCMotor(2, 3, 5)\nm.set_speed(0.5)\nv = m.get_speed()\nw = m.get_applied_speed()\nhalf = v / 2\nmon.write(v)\nmon.write(w)\nmon.write(half)\n",
     "servo-queries-stored-in-variables": "from Reduino.Actuators import Servo\ns = Servo(9)\ns.write(45.5)\na = s.read()\nu = s.read_us()\nd = a + 0.25\nmon.write(a)\nmon.write(u)\nmon.write(d)\n",
     "queries-returned-from-helpers": "from Reduino.Actuators import DCMotor\nm = DCMotor(2, 3, 5)\ndef speed():\n    return m.get_speed()\ndef twice():\n    s = m.get_applied_speed()\n    return s * 2\nm.set_speed(0.25)\nmon.write(speed())\nmon.write(twice())\n",
